@@ -34,6 +34,7 @@ type Gen struct {
 	// is a state the model does not record; matters only for crash images)
 	NoDupReinforce bool
 	NoChurn        bool        // no multi-call edge churn steps
+	NoTypedMeta    bool        // metadata values are JSON-native only
 	Combos         [][2]string // allowed metric/precision pairs (nil = all valid)
 }
 
@@ -44,7 +45,9 @@ func NewGen(r *vkit.Rand) *Gen {
 		R: r, Dim: vkit.Pick(r, []int{2, 3, 4, 8}),
 		Indexes: []string{"ia", "ib", "ic"},
 		IDs:     []string{"n0", "n1", "n2", "n3", "n4", "n5", "n6", "n7"},
-		Keys:    []string{"k0", "k1", "k2"},
+		// keys: plain ones, two that look like the engine's own graph prefixes, one with RESP
+		// control characters, one non-ASCII
+		Keys:    []string{"k0", "k1", "k2", "rel:a", "rev:b", "k\r\n$-1", "ключ"},
 		Rels:    []string{"r", "s"},
 		Words:   Vocab,
 	}
@@ -89,7 +92,29 @@ func (g *Gen) Text() string {
 }
 
 func (g *Gen) Value() any {
-	switch g.R.Intn(8) {
+	switch g.R.Intn(9) {
+	case 8:
+		if g.NoTypedMeta {
+			return vkit.Pick(g.R, g.Words)
+		}
+		// Go-typed values an embedding caller may pass (the JSON form of each is one of the
+		// shapes above, so the model and every read-out treat them alike)
+		switch g.R.Intn(7) {
+		case 0:
+			return []string{vkit.Pick(g.R, g.Words), vkit.Pick(g.R, g.Words)}
+		case 1:
+			return g.R.Intn(7) - 2
+		case 2:
+			return int64(g.R.Intn(7) - 2)
+		case 3:
+			return float32(g.R.Intn(16)) / 4
+		case 4:
+			return map[string]string{"a": vkit.Pick(g.R, g.Words)}
+		case 5:
+			return []int{g.R.Intn(5), g.R.Intn(5)}
+		default:
+			return []float64{float64(g.R.Intn(5)), 2.5}
+		}
 	case 0, 1:
 		return vkit.Pick(g.R, g.Words)
 	case 2:
@@ -268,7 +293,11 @@ func (g *Gen) Step(x *Exec) {
 	ix := g.pickIndex(m)
 	switch p := r.Intn(100); {
 	case p < 6:
-		x.KVSet(vkit.Pick(r, g.Keys), r.Bytes(r.Intn(6)))
+		n := r.Intn(6)
+		if r.Chance(0.04) {
+			n = 5000 // larger than the log writer's buffer
+		}
+		x.KVSet(vkit.Pick(r, g.Keys), r.Bytes(n))
 	case p < 9:
 		x.KVDelete(vkit.Pick(r, g.Keys))
 	case p < 34:
